@@ -513,7 +513,7 @@ class dir_archive(archive):
         try: ispickle = key.startswith(PROTO) and key.endswith(STOP)
         except: ispickle = False #FIXME: protocol 0,1 don't startwith(PROTO)
         key = hash(key, 'md5') if ispickle else str(key) #XXX: always hash?
-        return key.replace('-','_')
+        return key.replace('-','_').replace(os.sep,'_') # (one directory per key)
        ##XXX: below probably fails on windows, and could be huge... use 'md5'
        #return repr(key)[1:-1] if ispickle else str(key) # or repr?
 
@@ -2248,7 +2248,7 @@ if hdf:
           try: ispickle = key.startswith(PROTO) and key.endswith(STOP)
           except: ispickle = False #FIXME: protocol 0,1 don't startwith(PROTO)
           key = hash(key, 'md5') if ispickle else str(key) #XXX: always hash?
-          return key.replace('-','_')
+          return key.replace('-','_').replace(os.sep,'_') # (one directory per key)
           #XXX: special handling in ispickle for protocol=json?
          ##XXX: below probably fails on windows, and could be huge... use 'md5'
          #return repr(key)[1:-1] if ispickle else str(key) # or repr?
